@@ -55,3 +55,11 @@ CLAIMS["C14"] = {"engine": "indexer-protocol", "level": "model_checking",
                          "reorg cases and random fork histories are replayed on the real index and validated by TLC: the update terminates, "
                          "Ok implies agreement with the node and content equal to a from-scratch index, unrecoverable implies flagged",
                  "note": _PNOTE, "technique": "TLC model checking (safety + liveness) of spec/Indexer.tla + TLA+ trace validation of real reorg runs"}
+
+
+ENGINES.append({"name": "send-builder", "path": "spec/SendBuilder.tla", "serves_properties": ["C20"],
+                "kind_free_text": "TLA+ model of TransactionBuilder's pipeline with the C20 clauses as a predicate; SendModel.tla enumerates a boundary alphabet of wallets exhaustively, every configuration is replayed on the real builder and SendTrace.tla evaluates the clauses on the observed results"})
+CLAIMS["C20"] = {"engine": "send-builder", "level": "model_checking",
+                 "text": "TLC enumerates every wallet of a boundary alphabet (values around dust/postage thresholds, inscriptions at offsets, runic/locked/inscribed cardinals in the thorough tier, fee rates, three targets) through the pipeline model and checks the C20 clauses and that no internal assertion is reachable (this found the half-vbyte defect, now repaired, and the recorded exact-postage finding); every configuration is then executed on the real TransactionBuilder::build_transaction and TLC evaluates the same clauses on the observed transactions (plus seeded random real-scale wallets); the model result must equal the observed one (drift channel)",
+                 "note": "trusted: TLC, harness, bitcoin crate vsize; taproot scripts only; half-integer fee rates <= 1000 sat/vB",
+                 "technique": "TLC model checking of spec/SendBuilder.tla + spec-to-implementation replay and TLA+ trace validation (SendTrace)"}
